@@ -67,7 +67,7 @@ Definition final_eqb (r : final) (o : obs) : bool :=
 Definition model_head (ds dh : bytes) (dp : option N) (T : tables) (line : bytes) (hostv : option bytes) : final :=
   request_head utf8_valid (lookup (t_ip4 T)) (lookup (t_ip6 T)) (lookup (t_idd T)) (lookup (t_ide T))
     (tlower (t_lower T)) (lookup_elem (t_elem T)) (lookup_udig (t_udig T))
-    IMPL_INTLIMIT IMPL_VARIANT URI_USER_VARIANT URI_UNICODE_VARIANT NORM_VARIANT ds dh dp line hostv.
+    IMPL_INTLIMIT IMPL_VARIANT URI_USER_VARIANT URI_UNICODE_VARIANT NORM_VARIANT LOCATION_VARIANT ds dh dp line hostv.
 
 Definition hostobs_eqb (a b : option (bytes * option Z)) : bool :=
   opt_eqb (fun x y => bytes_eqb (fst x) (fst y) && opt_eqb Z.eqb (snd x) (snd y)) a b.
